@@ -68,8 +68,8 @@ Theorem C20_args_verbatim : forall exe args rel dir ctx i,
 Proof. exact args_verbatim. Qed.
 Print Assumptions C20_args_verbatim.
 
-(* NOT PROVED HERE (full statement kept visible; needs the lexer/parser/binder model of C10,
-   Tpl/*.v, which does not exist yet):
+(* PROVED AT THE END OF THIS FILE (C20_args_from_template, over the lexer/parser model of C10, Tpl/*.v);
+   the original plan statement, kept for reference:
      C20_args_from_template : forall (args : list str) ctx,
        (forall a, In a args -> a does not end in a backslash) ->
        the tree parsed from  print (%T(args){ctx})  binds to an AdHocTag instance whose
@@ -242,3 +242,154 @@ Proof. vm_compute. repeat split; reflexivity. Qed.
 Example C20_example_surrogate_context :
   adhoc_invocation [47; 112] [] [102] [47; 105; 110] (Some [97; 55296]) = None.
 Proof. vm_compute. reflexivity. Qed.
+
+(* ================================================================================================ *)
+(* ---- C20_args_from_template: from the template TEXT to argv ------------------------------------- *)
+(* (the statement announced in the comment above; the template language model Tpl/*.v of C10 now
+   exists.)  Glue: Tags/AdHocTemplate.v - _rewrite_tag_placeholder calls
+   factory( *placeholder.args, **placeholder.kwargs ), AdHocTag.configure stores the positional
+   values as self.args; the binder is the one of Tpl/Signature.v (C13) on configure's signature. *)
+From Tempren Require Import Tpl.Ast Tpl.Lexer Tpl.Cst Tpl.Parser Tpl.Escape Tpl.Visitor Tpl.Printer
+  Tpl.RoundTrip Tags.AdHocTemplate.
+
+(* For EVERY spelling style - either quote mark, any blanks (space TAB LF CR) between the tokens of
+   the argument list, timeout_ms written before, after or among the positional arguments, () or
+   nothing before a context - the text printed for the tag  %cat.name(args..., timeout_ms=tmo){ctx}
+   parses back to that tag; the configured arguments of that tag are exactly [args]; and the
+   program is started with  exe :: args  (then the relative path iff the tag was written without a
+   context), whatever the context renders to.  Hypotheses = wf_pat of C10 on this tree: name and
+   category are identifiers, no argument ends in a backslash (F31), the context is well-formed.
+   The argument strings are otherwise arbitrary lists of code points: blanks, both quote marks,
+   dollar-parenthesis, backticks, semicolons, stars, leading dashes, non-ASCII, newlines, the
+   template's own metacharacters, the empty string. *)
+Theorem C20_args_from_template : forall sty cat name (args : list str) tmo ctx_pat,
+  wf_style sty = true ->
+  wf_cat cat = true -> is_id name = true ->
+  (forall a, In a args -> last_is_backslash a = false) ->
+  (forall p, ctx_pat = Some p -> wf_pat p = true) ->
+  forall t, t = adhoc_tag cat name args tmo ctx_pat ->
+  parse (print sty (PCons t PNil)) = Ok (PCons t PNil) /\
+  adhoc_args_of t = Some args /\
+  forall (render : pat -> str) exe rel dir i,
+    adhoc_invocation exe args rel dir (option_map render ctx_pat) = Some i ->
+    inv_argv i = exe :: args ++ match ctx_pat with None => [rel] | Some _ => [] end.
+Proof. exact args_from_template. Qed.
+Print Assumptions C20_args_from_template.
+
+(* what the glue does, without the binder: the program of a tag node is started, with the
+   configured arguments [args], iff the positional arguments are exactly these strings and the
+   only keyword, if any, is timeout_ms with a value that is not a string.  (A positional value
+   that is not a string is stored by configure - Python does not check annotations - and
+   subprocess.run then raises TypeError before anything is started; likewise a string timeout.) *)
+Theorem C20_adhoc_args_of_spec : forall c n ar kw h x args,
+  adhoc_args_of (Tag c n ar kw h x) = Some args <->
+  ar = map VStr args /\
+  (kw = [] \/ exists v, kw = [(s_timeout_ms, v)] /\ timeout_usable v = true).
+Proof. exact adhoc_args_of_spec. Qed.
+Print Assumptions C20_adhoc_args_of_spec.
+
+(* configure's binding: accepted iff the only keyword, if any, is timeout_ms, once *)
+Theorem C20_adhoc_configure_binding : forall n kws,
+  Signature.bind adhoc_sig n kws = Signature.BindOk <-> kws = [] \/ kws = [s_timeout_ms].
+Proof. exact adhoc_bind_ok. Qed.
+Print Assumptions C20_adhoc_configure_binding.
+
+(* no joining, no splitting, no re-quoting: two argument lists spelled by the same text (in
+   whatever two styles) are the same list - same length, same strings, same order *)
+Theorem C20_args_text_injective : forall sty1 sty2 cat1 cat2 name1 name2 (args1 args2 : list str) tmo1 tmo2,
+  wf_style sty1 = true -> wf_style sty2 = true ->
+  wf_cat cat1 = true -> wf_cat cat2 = true -> is_id name1 = true -> is_id name2 = true ->
+  (forall a, In a args1 -> last_is_backslash a = false) ->
+  (forall a, In a args2 -> last_is_backslash a = false) ->
+  print sty1 (PCons (adhoc_tag cat1 name1 args1 tmo1 None) PNil) =
+  print sty2 (PCons (adhoc_tag cat2 name2 args2 tmo2 None) PNil) ->
+  args1 = args2.
+Proof. exact args_text_injective. Qed.
+Print Assumptions C20_args_text_injective.
+
+(* ---- the per-character instance, through the executable lexer/parser/printer ------------------- *)
+(* six hostile argument strings:
+     a b        |  SQ DQ $(x)`;*   |  (empty)  |  --é€😀  |  \ SQ \ DQ x  |  ,)%{}| LF =
+   (SQ = single quote, DQ = double quote, LF = line feed) *)
+Definition ex_hostile : list str :=
+  [[97; 32; 98]; [39; 34; 36; 40; 120; 41; 96; 59; 42]; []; [45; 45; 233; 8364; 128512];
+   [92; 39; 92; 34; 120]; [44; 41; 37; 123; 125; 124; 10; 61]].
+
+(* single quotes, no blanks, no timeout, no context:
+   %P('a b','\' DQ $(x)`;*','','--é€😀','\\\'\\ DQ x',',)%{}| LF =')   on the file "-f" *)
+Definition ex_sty_sq : style :=
+  {| sty_dq := false; sty_lower := false; sty_flag := false; sty_order := 0; sty_parens := false; sty_ws := [] |}.
+Definition ex_text_sq : str :=
+  [37; 80; 40; 39; 97; 32; 98; 39; 44; 39; 92; 39; 34; 36; 40; 120; 41; 96; 59; 42; 39; 44; 39; 39; 44;
+   39; 45; 45; 233; 8364; 128512; 39; 44; 39; 92; 92; 92; 39; 92; 92; 34; 120; 39; 44; 39; 44; 41; 37;
+   123; 125; 124; 10; 61; 39; 41].
+
+Example C20_example_template_hostile_sq :
+  wf_style ex_sty_sq = true /\
+  print ex_sty_sq (PCons (adhoc_tag None [80] ex_hostile None None) PNil) = ex_text_sq /\
+  parse ex_text_sq =
+    Ok (PCons (Tag None [80]
+                 [VStr [97; 32; 98]; VStr [39; 34; 36; 40; 120; 41; 96; 59; 42]; VStr [];
+                  VStr [45; 45; 233; 8364; 128512]; VStr [92; 39; 92; 34; 120];
+                  VStr [44; 41; 37; 123; 125; 124; 10; 61]] [] false PNil) PNil) /\
+  adhoc_args_of (adhoc_tag None [80] ex_hostile None None) = Some ex_hostile /\
+  adhoc_invocation [47; 112] ex_hostile [45; 102] [47; 105; 110] None =
+    Some (mkInv [[47; 112]; [97; 32; 98]; [39; 34; 36; 40; 120; 41; 96; 59; 42]; [];
+                 [45; 45; 233; 8364; 128512]; [92; 39; 92; 34; 120];
+                 [44; 41; 37; 123; 125; 124; 10; 61]; [45; 102]] None [47; 105; 110]).
+Proof. vm_compute. repeat split; reflexivity. Qed.
+
+(* double quotes, space TAB after every token, timeout_ms=500 written after the first argument,
+   category, a context:   %AdHoc.P( DQ a b DQ , timeout_ms = 500 , DQ ' \DQ $(x)`;* DQ , ... ){x y} *)
+Definition ex_sty_dq : style :=
+  {| sty_dq := true; sty_lower := true; sty_flag := true; sty_order := 2; sty_parens := true; sty_ws := [32; 9] |}.
+Definition ex_text_dq : str :=
+  [37; 65; 100; 72; 111; 99; 46; 80; 40; 32; 9; 34; 97; 32; 98; 34; 32; 9; 44; 32; 9; 116; 105; 109; 101;
+   111; 117; 116; 95; 109; 115; 32; 9; 61; 32; 9; 53; 48; 48; 32; 9; 44; 32; 9; 34; 39; 92; 34; 36; 40;
+   120; 41; 96; 59; 42; 34; 32; 9; 44; 32; 9; 34; 34; 32; 9; 44; 32; 9; 34; 45; 45; 233; 8364; 128512;
+   34; 32; 9; 44; 32; 9; 34; 92; 92; 39; 92; 92; 92; 34; 120; 34; 32; 9; 44; 32; 9; 34; 44; 41; 37; 123;
+   125; 124; 10; 61; 34; 32; 9; 41; 123; 120; 32; 121; 125].
+Definition ex_tag_dq : ast :=
+  adhoc_tag (Some [65; 100; 72; 111; 99]) [80] ex_hostile (Some 500%Z) (Some (PCons (RawText [120; 32; 121]) PNil)).
+
+Example C20_example_template_hostile_dq :
+  wf_style ex_sty_dq = true /\
+  print ex_sty_dq (PCons ex_tag_dq PNil) = ex_text_dq /\
+  parse ex_text_dq = Ok (PCons ex_tag_dq PNil) /\
+  adhoc_args_of ex_tag_dq = Some ex_hostile /\
+  adhoc_invocation [47; 112] ex_hostile [45; 102] [47; 105; 110] (Some [120; 32; 121]) =
+    Some (mkInv [[47; 112]; [97; 32; 98]; [39; 34; 36; 40; 120; 41; 96; 59; 42]; [];
+                 [45; 45; 233; 8364; 128512]; [92; 39; 92; 34; 120];
+                 [44; 41; 37; 123; 125; 124; 10; 61]] (Some [120; 32; 121]) [47; 105; 110]).
+Proof. vm_compute. repeat split; reflexivity. Qed.
+
+(* values that are not strings never reach argv:  %P('a', 5)  and  %P('a', True)  are configured
+   (Python does not check ": str") and the program is never started (TypeError in subprocess.run);
+   %P('a', timeout_ms='5')  likewise (TypeError in timeout_ms / 1000);  %P('a', timeout=5)  and
+   %P('a', shell)  are refused by configure;  %P('a', timeout_ms=True)  starts the program *)
+Example C20_example_template_not_started :
+  (forall t, parse [37; 80; 40; 39; 97; 39; 44; 53; 41] = Ok (PCons t PNil) -> adhoc_args_of t = None) /\
+  (forall t, parse [37; 80; 40; 39; 97; 39; 44; 84; 114; 117; 101; 41] = Ok (PCons t PNil) -> adhoc_args_of t = None) /\
+  (forall t, parse [37; 80; 40; 39; 97; 39; 44; 116; 105; 109; 101; 111; 117; 116; 95; 109; 115; 61; 39; 53; 39; 41]
+             = Ok (PCons t PNil) -> adhoc_args_of t = None) /\
+  (forall t, parse [37; 80; 40; 39; 97; 39; 44; 116; 105; 109; 101; 111; 117; 116; 61; 53; 41]
+             = Ok (PCons t PNil) -> adhoc_args_of t = None) /\
+  (forall t, parse [37; 80; 40; 39; 97; 39; 44; 115; 104; 101; 108; 108; 41] = Ok (PCons t PNil) -> adhoc_args_of t = None) /\
+  (forall t, parse [37; 80; 40; 39; 97; 39; 44; 116; 105; 109; 101; 111; 117; 116; 95; 109; 115; 61; 84; 114; 117; 101; 41]
+             = Ok (PCons t PNil) -> adhoc_args_of t = Some [[97]]) /\
+  parse [37; 80; 40; 39; 97; 39; 44; 53; 41] = Ok (PCons (Tag None [80] [VStr [97]; VInt 5] [] false PNil) PNil).
+Proof.
+  vm_compute. repeat split; try reflexivity; intros t H; inversion H; reflexivity.
+Qed.
+
+(* the excluded strings (F31, open): an argument ending in a backslash.  The lexer rule
+   STRING_VALUE takes the escaped-looking closing quote as part of the string:
+   %P('a\\','b')  is a lexical error at the closing quote of 'b' (nothing is started - no wrong
+   argv), while the lone  %P('a\\')  is read back correctly. *)
+Example C20_example_template_trailing_backslash :
+  print ex_sty_sq (PCons (adhoc_tag None [80] [[97; 92]; [98]] None None) PNil) =
+    [37; 80; 40; 39; 97; 92; 92; 39; 44; 39; 98; 39; 41] /\
+  parse [37; 80; 40; 39; 97; 92; 92; 39; 44; 39; 98; 39; 41] = Err (ELex 11) /\
+  parse (print ex_sty_sq (PCons (adhoc_tag None [80] [[97; 92]] None None) PNil)) =
+    Ok (PCons (adhoc_tag None [80] [[97; 92]] None None) PNil).
+Proof. vm_compute. repeat split; reflexivity. Qed.
